@@ -46,6 +46,9 @@ class Ctx:
         self.notes = []
         self.deadline = None
         self.escalated = []
+        self.diff_inputs = []       # drift-directed search: (data, depth) on which the current tree and the baseline snapshot behave differently
+        self.diff_histories = []    # ... sequences after which they differ although they agree on the last input alone
+        self.drift_stats = None
 
     @property
     def thorough(self):
@@ -127,6 +130,73 @@ class Ctx:
             self.count("violations_not_listed")
 
 
+def drift_consumers(ctx, prop):
+    """inputs found by the drift-directed search, through this property's eyes: whole-scan model comparison (properties that speak about scans), the property's
+    scan-level oracle when it has one, and histories replayed on a fresh scanner"""
+    from decoder_common import ToolRecorder
+    from scan_common import ScanTimeout, views_total, with_timeout
+    from multidecoder.multidecoder import Multidecoder
+    whole = getattr(prop, "DRIFT_SCAN", ctx.pid in ("C01", "C02", "C03", "C04", "C05", "C06", "C07", "C08", "C09", "C11", "C19", "C20")) or bool(ctx.escalated)
+    orc = getattr(prop, "scan_oracle", None)
+    args, outs = [], []
+    md = Multidecoder()
+    for data, depth in ctx.diff_inputs[:25]:
+        k = 10 if depth is None else depth
+        with ToolRecorder() as rec:
+            try:
+                tree = with_timeout(lambda: md.scan(data, k), 30)
+                out = ["ok", common.node_val(tree)]
+            except ScanTimeout:
+                out, tree = ["hang"], None
+            except Exception as ex:  # noqa: BLE001
+                out, tree = ["raise", type(ex).__name__], None
+        ctx.evals += 1
+        ctx.count("drift_input:" + out[0])
+        if orc is not None:
+            for msg in orc(ctx, data, k, tree, out) or []:
+                ctx.violation("drift-directed scan", [k, data], msg)
+                break
+        if whole and len(data) < 1500:
+            pe_t, xor_t = rec.tables()
+            args.append([k, data, pe_t, xor_t])
+            outs.append(out)
+    if args:
+        model = ctx.runner.run([("scan_default", a) for a in args])
+        ctx.probe_counts["scan_default"] = ctx.probe_counts.get("scan_default", 0) + len(args)
+        for a, o, m in zip(args, outs, model):
+            if m == ["hang"]:
+                ctx.count("model_fuel_exhausted")
+            elif common.canon(o) != m and len(ctx.disagreements) < 50:
+                ctx.disagreements.append({"probe": "scan_default (drift-directed input)", "input": jsonable(a[:2]), "model": jsonable(m), "impl": jsonable(o)})
+    for hist in ctx.diff_histories[:3]:
+        # a scan must be a function of its input: after this history, on one scanner, the last input's tree must be the tree a fresh scanner gives
+        if not hist:
+            continue
+        shared = Multidecoder()
+        try:
+            last = None
+            for data, depth in hist:
+                last = common.node_val(shared.scan(data) if depth is None else shared.scan(data, depth))
+            data, depth = hist[-1]
+            fresh = subprocess_scan(data, depth)
+            ctx.evals += 1
+            if fresh is not None and enc(canon(last)) != fresh:
+                ctx.violation("scan-history", [[list(h) for h in hist[-6:]]], f"after {len(hist)} earlier scans on the same scanner, scan({data[:60]!r}, depth={depth}) differs from the same call in a fresh process", cls="history")
+        except Exception:  # noqa: BLE001
+            log(traceback.format_exc())
+
+
+def subprocess_scan(data, depth):
+    import subprocess
+    code = ("import sys,json;sys.path.insert(0,%r);from common import node_val,canon;from multidecoder.multidecoder import Multidecoder;"
+            "d=bytes.fromhex(sys.argv[1]);k=sys.argv[2];t=Multidecoder().scan(d) if k=='-' else Multidecoder().scan(d,int(k));"
+            "from common import enc;print(enc(canon(node_val(t))))" % os.path.dirname(os.path.abspath(__file__)))
+    p = subprocess.run([sys.executable, "-c", code, data.hex(), "-" if depth is None else str(depth)], stdout=subprocess.PIPE, stderr=subprocess.PIPE, timeout=120, env=dict(os.environ))
+    if p.returncode != 0:
+        return None
+    return p.stdout.decode().strip()
+
+
 def write_replay(pid, obj):
     d = os.path.join(VERIF, "replays")
     os.makedirs(d, exist_ok=True)
@@ -156,6 +226,14 @@ def main():
         ctx.escalated = fingerprints.drift_for(files)
         if ctx.escalated:
             log(f"[{pid}] source drift in {ctx.escalated[:5]}: escalating to the thorough generator budgets")
+        alldrift = fingerprints.drift()
+        if alldrift and not args.replay:
+            # the source differs from the baseline the model was written against: look for inputs on which the two behave differently and hand them to
+            # this property's own probes (harness/driftsearch.py; a difference alone is never a verdict)
+            import driftsearch
+            res = driftsearch.search(random.Random(seed * 7919 + 13), alldrift, 150 if args.tier == "thorough" else 30)
+            ctx.diff_inputs, ctx.diff_histories, ctx.drift_stats = res["inputs"], res["histories"], res["stats"]
+            log(f"[{pid}] drift-directed search ({alldrift[:3]}...): {res['stats']}")
     except Exception:
         log(traceback.format_exc())
     if args.replay:
@@ -211,6 +289,8 @@ def main():
     try:
         ctx.runner = Runner()
         prop.run(ctx)
+        if ctx.diff_inputs or ctx.diff_histories:
+            drift_consumers(ctx, prop)
     except Exception as ex:
         run_error = f"{type(ex).__name__}: {ex}"
         log(traceback.format_exc())
